@@ -66,7 +66,7 @@ package manifest
 //@   modifies nothing
 //@ func (*Manager).maybeRewriteLocked
 //@   trusted
-//@   modifies heap, ghost(fileWrites), ghost(fileSyncs), ghost(fileCloses), ghost(renames), ghost(renameSawSyncs), ghost(renameSawCloses), ghost(removes), ghost(removeSawRenames), ghost(openedSize), ghost(flockHeld), ghost(unlinkedWhileUnlocked), ghost(manifestFlushes), ghost(renameSawFlushes)
+//@   modifies heap, ghost(fileWrites), ghost(fileSyncs), ghost(fileCloses), ghost(renames), ghost(renameSawSyncs), ghost(renameSawCloses), ghost(removes), ghost(removeSawRenames), ghost(openedSize), ghost(flockHeld), ghost(unlinkedWhileUnlocked), ghost(bufFlushes), ghost(renameSawFlushes), ghost(syncSawFlushes), ghost(closeSawSyncs)
 //@ func (*Manager).logEditsLocked
 //@   property C15
 //@   requires m != nil && m.manifest != nil
@@ -79,12 +79,7 @@ package manifest
 // rewriteLocked: CURRENT is switched (rename) only after the new manifest was flushed,
 // synced when syncWrites is on, and closed; on success the old manifest file is removed
 // only after the switch.
-//@ ghost var manifestFlushes Int
 //@ ghost var renameSawFlushes Int
-//@ func bufio::(*Writer).Flush
-//@   trusted
-//@   ghost manifestFlushes = (result == nil ? manifestFlushes + 1 : manifestFlushes)
-//@   modifies nothing
 //@ func (*Manager).writeSnapshot
 //@   trusted
 //@   modifies nothing
@@ -93,7 +88,7 @@ package manifest
 //@   modifies heap
 //@ func (*Manager).writeCurrent
 //@   property C15
-//@   ghost renameSawFlushes = manifestFlushes
+//@   ghost renameSawFlushes = bufFlushes
 //@   ensures [one-rename-on-success] result == nil ==> renames == old(renames) + 1
 //@   ensures [no-rename-on-failure] result != nil ==> renames == old(renames)
 //@   ensures [rename-sees-now] renames > old(renames) ==> renameSawSyncs == fileSyncs && renameSawCloses == fileCloses
@@ -101,8 +96,9 @@ package manifest
 //@ func (*Manager).rewriteLocked
 //@   property C15
 //@   requires m != nil
-//@   ensures [switch-after-flush] renames > old(renames) ==> renameSawFlushes > old(manifestFlushes)
+//@   ensures [switch-after-flush] renames > old(renames) ==> renameSawFlushes > old(bufFlushes)
 //@   ensures [switch-after-sync] renames > old(renames) && old(m.syncWrites) ==> renameSawSyncs > old(fileSyncs)
+//@   ensures [synced-what-was-flushed] renames > old(renames) && old(m.syncWrites) ==> syncSawFlushes > old(bufFlushes)
 //@   ensures [switch-after-close] renames > old(renames) ==> renameSawCloses > old(fileCloses)
 //@   ensures [old-file-removed-only-after-switch] result == nil && removes > old(removes) ==> removeSawRenames > old(renames)
 //@   ensures [failure-before-switch-keeps-current] result != nil && renames == old(renames) ==> m.current == old(m.current)
